@@ -163,6 +163,18 @@ CHECKS['C16'] = dict(
    technique='exhaustive-domain contract checking of the translation and type tables + bounded round-trip contracts',
    design_ref='DESIGN.md 5 C16')
 
+CHECKS['C17'] = dict(
+   category='other',
+   text='Mixed. Proved on the real flags.py (every combination of flags, symbolically): the keyword dictionaries built by '
+        'discover_flags / verify_flags / detect_flags equal the documented meaning of each flag, nothing else is set, and unknown '
+        'arguments or contradictory pairs end in SystemExit - exactly then. Bounded (labelled): tdda discover / verify / detect run '
+        'in-process on 6 generated tables x CSV and parquet x ~20 flag sets give the same constraints (apart from creation metadata), '
+        'pass/failure counts and detection files as the library on load_df(file); discovered constraints verify against their file; '
+        'missing inputs / constraints files, unknown and contradictory flags exit non-zero and leave no output; 3 subprocess runs.',
+   note='Trusted: argparse, pandas readers/writers. Extension dispatch and the *_from_file front-ends are bounded only.',
+   technique='contract-based deductive verification of the flag translators + bounded runtime comparison of CLI and library',
+   design_ref='DESIGN.md 5 C17')
+
 NA_REASON = 'check under construction in this session (see DESIGN.md 8, build order)'
 
 def main():
